@@ -28,29 +28,170 @@ Qed.
 Lemma denotes_fix zs : denotes (map VFix zs) = Some (map (fun z => (z, 1)) zs).
 Proof. induction zs as [|z zs IH]; cbn; [reflexivity|]. rewrite IH. reflexivity. Qed.
 
-(* ---------- + - * on fixnums without overflow ---------- *)
+(* ---------- the overflow tests of the fixnum + - * ---------- *)
+(* the division test of * : the wrapped product divided by one factor gives back the other one exactly
+   when nothing was lost, except for -1 * most-negative-fixnum, which the code tests separately *)
+Lemma wrap64_k z : exists k, wrap64 z = z + k * (2 * two63) /\ (in64 z = true -> k = 0) /\ - two63 <= wrap64 z < two63.
+Proof.
+  exists (- ((z + two63) / (2 * two63))). unfold wrap64.
+  pose proof (Z.div_mod (z + two63) (2 * two63) ltac:(unfold two63; lia)) as E.
+  pose proof (Z.mod_pos_bound (z + two63) (2 * two63) ltac:(unfold two63; lia)) as B.
+  remember ((z + two63) / (2 * two63)) as q. remember ((z + two63) mod (2 * two63)) as r. clear Heqq Heqr.
+  split; [lia|]. split; [|lia]. intros H. apply in64_spec in H. unfold two63 in *. lia.
+Qed.
+Lemma not_in64 z : in64 z = false -> z < - two63 \/ two63 <= z.
+Proof.
+  intros H. destruct (Z.lt_ge_cases z (- two63)); [left; assumption|].
+  destruct (Z.lt_ge_cases z two63); [|right; assumption].
+  assert (in64 z = true) by (apply in64_spec; lia). congruence.
+Qed.
+Lemma add_fix_spec a b : in64 a = true -> in64 b = true ->
+  add_fix a b = if in64 (a + b) then VFix (a + b) else VBig (a + b).
+Proof.
+  intros Ha Hb. apply in64_spec in Ha, Hb. unfold add_fix. cbv zeta.
+  destruct (wrap64_k (a + b)) as (k & Ek & Hk & Bw).
+  destruct (in64 (a + b)) eqn:Hin.
+  - rewrite (wrap64_id _ Hin). apply in64_spec in Hin.
+    destruct (Z.ltb_spec a 0), (Z.ltb_spec b 0), (Z.ltb_spec (a + b) 0); cbn; try reflexivity; unfold two63 in *; lia.
+  - apply not_in64 in Hin. remember (wrap64 (a + b)) as w. clear Heqw Hk.
+    destruct (Z.ltb_spec a 0), (Z.ltb_spec b 0), (Z.ltb_spec w 0); cbn; try reflexivity; exfalso; unfold two63 in *; lia.
+Qed.
+Lemma sub_fix_spec a b : in64 a = true -> in64 b = true ->
+  sub_fix a b = if in64 (a - b) then VFix (a - b) else VBig (a - b).
+Proof.
+  intros Ha Hb. apply in64_spec in Ha, Hb. unfold sub_fix. cbv zeta.
+  destruct (wrap64_k (a - b)) as (k & Ek & Hk & Bw).
+  destruct (in64 (a - b)) eqn:Hin.
+  - rewrite (wrap64_id _ Hin). apply in64_spec in Hin.
+    destruct (Z.ltb_spec a 0), (Z.ltb_spec b 0), (Z.ltb_spec (a - b) 0); cbn; try reflexivity; unfold two63 in *; lia.
+  - apply not_in64 in Hin. remember (wrap64 (a - b)) as w. clear Heqw Hk.
+    destruct (Z.ltb_spec a 0), (Z.ltb_spec b 0), (Z.ltb_spec w 0); cbn; try reflexivity; exfalso; unfold two63 in *; lia.
+Qed.
+Lemma mul_fix_spec a b : in64 a = true -> in64 b = true ->
+  mul_fix a b = if in64 (a * b) then VFix (a * b) else VBig (a * b).
+Proof.
+  intros Ha Hb. unfold mul_fix. cbv zeta.
+  destruct (wrap64_k (a * b)) as (k & Ek & Hk & Bw).
+  destruct (Z.eqb_spec a 0) as [->|Hnz]; cbn [negb andb].
+  - cbn. reflexivity.
+  - destruct (in64 (a * b)) eqn:Hin.
+    + rewrite (wrap64_id _ Hin). unfold gquot.
+      apply in64_spec in Ha, Hb.
+      rewrite (Z.mul_comm a b), Z.quot_mul by exact Hnz.
+      destruct ((a =? -1) && (b =? - two63)) eqn:Hm.
+      * apply andb_true_iff in Hm as [H1 H2]. apply Z.eqb_eq in H1, H2. subst. discriminate Hin.
+      * rewrite (wrap64_id b) by (apply in64_spec; exact Hb). rewrite Z.eqb_refl. reflexivity.
+    + destruct ((a =? -1) && (b =? - two63)) eqn:Hm; [rewrite orb_true_r; reflexivity|].
+      rewrite orb_false_r.
+      assert (Hne : gquot (wrap64 (a * b)) a <> b); [|apply Z.eqb_neq in Hne; rewrite Hne; reflexivity].
+      unfold gquot. intros Hq.
+      assert (Hk0 : k <> 0).
+      { intros ->. rewrite Z.mul_0_l, Z.add_0_r in Ek. rewrite Ek in Bw. apply (proj2 (in64_spec _)) in Bw. congruence. }
+      apply in64_spec in Ha, Hb.
+      assert (Ha2 : 2 <= Z.abs a).
+      { destruct (Z.eq_dec a 1) as [->|]; [rewrite Z.mul_1_l in Hin; apply (proj2 (in64_spec _)) in Hb; congruence|].
+        destruct (Z.eq_dec a (-1)) as [->|]; [|lia].
+        cbn [Z.eqb andb] in Hm. change (-1 =? -1) with true in Hm. cbn [andb] in Hm. apply Z.eqb_neq in Hm.
+        assert (in64 (-1 * b) = true) by (apply in64_spec; unfold two63 in *; lia). congruence. }
+      pose proof (Z.quot_rem' (wrap64 (a * b)) a) as QR. pose proof (Z.rem_bound_abs (wrap64 (a * b)) a Hnz) as RB.
+      pose proof (Z.quot_abs (wrap64 (a * b)) a Hnz) as QA.
+      pose proof (Z.mul_quot_le (Z.abs (wrap64 (a * b))) (Z.abs a) (Z.abs_nonneg _) ltac:(lia)) as ML.
+      rewrite QA in ML.
+      remember (Z.quot (wrap64 (a * b)) a) as q. remember (Z.rem (wrap64 (a * b)) a) as r. clear Heqq Heqr QA.
+      assert (Iq : in64 q = true) by (apply in64_spec; unfold two63 in *; nia).
+      rewrite (wrap64_id _ Iq) in Hq. subst q.
+      rewrite Ek in QR. clear ML Iq Hin Hm Hk Bw Ek. unfold two63 in *. lia.
+Qed.
+
+(* ---------- + - * on integers: fixnum accumulator until a prefix result leaves int64, bignum afterwards ---------- *)
+Definition intv (v : val) : bool := match v with VFix z => in64 z | VBig _ => true | _ => false end.
+Lemma all_int_denotes' args : all_int args = true ->
+  denotes args = Some (map (fun z => (z, 1)) (fixes args)).
+Proof.
+  unfold all_int, fixes. induction args as [|v args IH]; cbn; [reflexivity|].
+  rewrite andb_true_iff. intros [Hv Hr]. rewrite (IH Hr). destruct v; try discriminate; reflexivity.
+Qed.
+Lemma prefixes_total f zs : forall a, in64 a = true -> prefixes_in64 f a zs = true -> in64 (fold_left f zs a) = true.
+Proof.
+  induction zs as [|z zs IH]; intros a Ha H; cbn in *; [exact Ha|].
+  apply andb_true_iff in H as [H1 H2]. apply IH; assumption.
+Qed.
+
 Section Folds.
   Variable f : Z -> Z -> Z.
   Variable step : val -> val -> val.
   Variable qf : Z * Z -> Z * Z -> Z * Z.
-  Hypothesis step_fix : forall a z, step (VFix a) (VFix z) = VFix (wrap64 (f a z)).
+  Hypothesis step_int : forall acc x, intv acc = true -> intv x = true ->
+    step acc x = if is_fix acc && is_fix x && in64 (f (as_int acc) (as_int x))
+                 then VFix (f (as_int acc) (as_int x)) else VBig (f (as_int acc) (as_int x)).
   Hypothesis qf_int : forall a z, qf (a, 1) (z, 1) = (f a z, 1).
 
-  Lemma fold_fix zs : forall a, prefixes_in64 f a zs = true ->
-    fold_left step (map VFix zs) (VFix a) = VFix (fold_left f zs a) /\ (zs <> [] -> in64 (fold_left f zs a) = true).
+  Lemma fold_int rest : forall acc, intv acc = true -> all_int rest = true ->
+    fold_left step rest acc =
+      (if is_fix acc && all_fix rest && prefixes_in64 f (as_int acc) (fixes rest) then VFix else VBig)
+        (fold_left f (fixes rest) (as_int acc)).
   Proof.
-    induction zs as [|z zs IH]; intros a H; cbn in *; [split; [reflexivity|congruence]|].
-    apply andb_true_iff in H as [H1 H2]. rewrite step_fix, (wrap64_id _ H1).
-    destruct (IH _ H2) as [E1 E2]. split; [exact E1|]. intros _. destruct zs; [exact H1|apply E2; discriminate].
+    induction rest as [|x rest IH]; intros acc Ha Hr.
+    - cbn. destruct acc; try discriminate; reflexivity.
+    - cbn [all_int forallb] in Hr. apply andb_true_iff in Hr as [Hx Hr].
+      assert (Ix : intv x = true) by (destruct x; try discriminate; exact Hx).
+      cbn [fold_left fixes map]. rewrite (step_int acc x Ha Ix).
+      destruct (is_fix acc && is_fix x && in64 (f (as_int acc) (as_int x))) eqn:C.
+      + apply andb_true_iff in C as [C C3]. apply andb_true_iff in C as [C1 C2].
+        rewrite (IH (VFix (f (as_int acc) (as_int x))) C3 Hr). cbn [is_fix as_int andb].
+        rewrite C1. cbn [andb]. unfold all_fix. cbn [forallb].
+        destruct x; try discriminate. cbn [as_int] in *. cbn in Hx. rewrite Hx. cbn [andb prefixes_in64].
+        rewrite C3. cbn [andb]. reflexivity.
+      + rewrite (IH (VBig (f (as_int acc) (as_int x))) eq_refl Hr). cbn [is_fix as_int andb].
+        replace (is_fix acc && all_fix (x :: rest) && prefixes_in64 f (as_int acc) (as_int x :: map as_int rest)) with false; [reflexivity|].
+        symmetry. unfold all_fix. cbn [forallb prefixes_in64].
+        destruct (is_fix acc); [|reflexivity]. destruct x; try discriminate; cbn [is_fix as_int andb] in *; [|reflexivity].
+        cbn in Hx. rewrite Hx. cbn [andb]. rewrite C. cbn [andb]. apply andb_false_r.
   Qed.
   Lemma fold_q zs : forall a, fold_left qf (map (fun z => (z, 1)) zs) (a, 1) = (fold_left f zs a, 1).
   Proof. induction zs as [|z zs IH]; intros a; cbn; [reflexivity|]. rewrite qf_int. apply IH. Qed.
+
+  (* inside fold_domain the model's fold is the canonical form of the exact fold *)
+  Lemma fold_canon acc rest : intv acc = true -> fold_domain f (as_int acc) (is_fix acc) rest = true ->
+    fold_left step rest acc = canon_int (fold_left f (fixes rest) (as_int acc)).
+  Proof.
+    intros Ha Hd. unfold fold_domain in Hd. apply andb_true_iff in Hd as [Hr Hc].
+    rewrite (fold_int rest acc Ha Hr).
+    destruct (is_fix acc && all_fix rest && prefixes_in64 f (as_int acc) (fixes rest)) eqn:C.
+    - apply andb_true_iff in C as [C C3]. apply andb_true_iff in C as [C1 C2].
+      symmetry. apply canon_int_fix. apply prefixes_total; [|exact C3]. destruct acc; try discriminate; exact Ha.
+    - cbn [orb] in Hc. replace (is_fix acc && all_fix rest && prefixes_in64 f (as_int acc) (fixes rest)) with false in Hc.
+      cbn [orb] in Hc. apply negb_true_iff in Hc. unfold canon_int. rewrite Hc. reflexivity.
+  Qed.
 End Folds.
 
-Lemma add2_fix a z : add2 (VFix a) (VFix z) = VFix (wrap64 (a + z)).
-Proof. cbn. f_equal. f_equal. lia. Qed.
-Lemma mul2_fix a z : mul2 (VFix a) (VFix z) = VFix (wrap64 (a * z)).
-Proof. cbn. f_equal. f_equal. lia. Qed.
+Lemma add2_int acc x : intv acc = true -> intv x = true ->
+  add2 acc x = if is_fix acc && is_fix x && in64 (as_int acc + as_int x)
+               then VFix (as_int acc + as_int x) else VBig (as_int acc + as_int x).
+Proof.
+  intros Ha Hx. destruct acc as [a|a| |], x as [z|z| |]; try discriminate; cbn [add2 norm_kind as_int is_fix andb].
+  - rewrite (add_fix_spec z a Hx Ha), (Z.add_comm z a). reflexivity.
+  - f_equal. lia.
+  - f_equal. lia.
+  - f_equal. lia.
+Qed.
+Lemma mul2_int acc x : intv acc = true -> intv x = true ->
+  mul2 acc x = if is_fix acc && is_fix x && in64 (as_int acc * as_int x)
+               then VFix (as_int acc * as_int x) else VBig (as_int acc * as_int x).
+Proof.
+  intros Ha Hx. destruct acc as [a|a| |], x as [z|z| |]; try discriminate; cbn [mul2 norm_kind as_int is_fix andb].
+  - rewrite (mul_fix_spec z a Hx Ha), (Z.mul_comm z a). reflexivity.
+  - f_equal. lia.
+  - f_equal. lia.
+  - f_equal. lia.
+Qed.
+Lemma sub2_int acc x : intv acc = true -> intv x = true ->
+  sub2 acc x = if is_fix acc && is_fix x && in64 (as_int acc - as_int x)
+               then VFix (as_int acc - as_int x) else VBig (as_int acc - as_int x).
+Proof.
+  intros Ha Hx. destruct acc as [a|a| |], x as [z|z| |]; try discriminate; cbn [sub2 norm_kind as_int is_fix andb]; try reflexivity.
+  apply (sub_fix_spec a z Ha Hx).
+Qed.
 Lemma qadd_int a z : qadd (a, 1) (z, 1) = (a + z, 1).
 Proof. unfold qadd; cbn. f_equal; lia. Qed.
 Lemma qmul_int a z : qmul (a, 1) (z, 1) = (a * z, 1).
@@ -67,75 +208,82 @@ Ltac fix_operands args Hf zs Hin :=
   destruct (all_fix_spec args Hf) as [H Hin];
   remember (fixes args) as zs; rewrite H in *; rewrite ?fixes_map in *; clear H.
 
+Lemma fold_domain_int f a b rest : fold_domain f a b rest = true -> all_int rest = true.
+Proof. unfold fold_domain. intros H. apply andb_true_iff in H as [H _]. exact H. Qed.
+
 Lemma add_exact args : in_domain OAdd args = true -> s_out OAdd args = Some (m_op OAdd args).
 Proof.
-  cbn [in_domain]. rewrite andb_true_iff. intros [Hf Hp]. fix_operands args Hf zs Hin.
-  unfold s_out. rewrite denotes_fix. cbn [m_op s_op]. unfold m_add. f_equal. f_equal. f_equal.
-  destruct (fold_fix Z.add add2 add2_fix _ 0 Hp) as [E1 E2]. rewrite E1.
+  cbn [in_domain]. intros Hd. unfold s_out. rewrite (all_int_denotes' _ (fold_domain_int _ _ _ _ Hd)).
+  cbn [m_op s_op]. unfold m_add. f_equal. f_equal. f_equal.
   rewrite (fold_q Z.add qadd qadd_int). cbn [fst snd]. rewrite canon_one.
-  destruct zs as [|z zs']; [reflexivity|]. rewrite canon_int_fix; [reflexivity|apply E2; discriminate].
+  symmetry. apply (fold_canon Z.add add2 add2_int (VFix 0) args eq_refl Hd).
 Qed.
-
 Lemma mul_exact args : in_domain OMul args = true -> s_out OMul args = Some (m_op OMul args).
 Proof.
-  cbn [in_domain]. rewrite andb_true_iff. intros [Hf Hp]. fix_operands args Hf zs Hin.
-  unfold s_out. rewrite denotes_fix. cbn [m_op s_op]. unfold m_mul. f_equal. f_equal. f_equal.
-  destruct (fold_fix Z.mul mul2 mul2_fix _ 1 Hp) as [E1 E2]. rewrite E1.
+  cbn [in_domain]. intros Hd. unfold s_out. rewrite (all_int_denotes' _ (fold_domain_int _ _ _ _ Hd)).
+  cbn [m_op s_op]. unfold m_mul. f_equal. f_equal. f_equal.
   rewrite (fold_q Z.mul qmul qmul_int). cbn [fst snd]. rewrite canon_one.
-  destruct zs as [|z zs']; [reflexivity|]. rewrite canon_int_fix; [reflexivity|apply E2; discriminate].
+  symmetry. apply (fold_canon Z.mul mul2 mul2_int (VFix 1) args eq_refl Hd).
 Qed.
 
-(* subtraction: the accumulator is operand 0, but on the fixnum path nothing is written into it *)
-Lemma fold_sub_fix zs : forall a op0, prefixes_in64 Z.sub a zs = true ->
-  fold_left sub2 (map VFix zs) (VFix a, true, op0) =
-    match zs with [] => (VFix a, true, op0) | _ => (VFix (fold_left Z.sub zs a), false, op0) end /\
-  (zs <> [] -> in64 (fold_left Z.sub zs a) = true).
-Proof.
-  assert (G : forall l a b op0, prefixes_in64 Z.sub a l = true ->
-            fold_left sub2 (map VFix l) (VFix a, b, op0) =
-              match l with [] => (VFix a, b, op0) | _ => (VFix (fold_left Z.sub l a), false, op0) end /\
-            (l <> [] -> in64 (fold_left Z.sub l a) = true)).
-  { clear zs. induction l as [|z zs IH]; intros a b op0 H; cbn in *; [split; [reflexivity|congruence]|].
-    apply andb_true_iff in H as [H1 H2]. rewrite (wrap64_id _ H1).
-    destruct (IH (a - z) false op0 H2) as [E1 E2]. rewrite E1. split.
-    - destruct zs; reflexivity.
-    - intros _. destruct zs; [exact H1|apply E2; discriminate]. }
-  intros a op0. apply G.
-Qed.
-
+Lemma neg_min : - - two63 = two63. Proof. reflexivity. Qed.
 Lemma sub_exact args : in_domain OSub args = true -> s_out OSub args = Some (m_op OSub args).
 Proof.
-  cbn [in_domain]. rewrite andb_true_iff. intros [Hf Hp]. fix_operands args Hf zs Hin.
-  unfold s_out. rewrite denotes_fix. cbn [m_op]. f_equal.
-  destruct zs as [|a [|b rest]]; [discriminate| |].
-  - cbn [map m_sub neg1 s_op fst snd]. rewrite (wrap64_id _ Hp), canon_one, (canon_int_fix _ Hp). reflexivity.
-  - cbn [map m_sub]. change (VFix b :: map VFix rest) with (map VFix (b :: rest)).
-    destruct (fold_sub_fix (b :: rest) a (VFix a) Hp) as [E1 E2]. rewrite E1.
-    cbn [s_op]. change ((b, 1) :: map (fun z => (z, 1)) rest) with (map (fun z : Z => (z, 1)) (b :: rest)).
-    rewrite (fold_q Z.sub qsub qsub_int). cbn [fst snd]. rewrite canon_one, canon_int_fix; [reflexivity|apply E2; discriminate].
+  cbn [in_domain]. intros Hd.
+  assert (Many : forall a rest, rest <> [] -> intv a = true -> fold_domain Z.sub (as_int a) (is_fix a) rest = true ->
+            s_out OSub (a :: rest) = Some (m_op OSub (a :: rest))).
+  { intros a rest Hne Ia Hf. unfold s_out. cbn [denotes].
+    rewrite (all_int_denotes' _ (fold_domain_int _ _ _ _ Hf)).
+    assert (Da : denote a = Some (as_int a, 1)) by (destruct a; try discriminate; reflexivity). rewrite Da.
+    cbn [m_op]. unfold m_sub. destruct rest as [|b rest]; [congruence|].
+    change (map (fun z => (z, 1)) (fixes (b :: rest))) with ((as_int b, 1) :: map (fun z => (z, 1)) (fixes rest)).
+    cbn [s_op]. change ((as_int b, 1) :: map (fun z => (z, 1)) (fixes rest)) with (map (fun z : Z => (z, 1)) (fixes (b :: rest))).
+    rewrite (fold_q Z.sub qsub qsub_int). cbn [fst snd]. rewrite canon_one.
+    rewrite (fold_canon Z.sub sub2 sub2_int a (b :: rest) Ia Hf). reflexivity. }
+  destruct args as [|[a|a| |] [|b rest]]; try discriminate.
+  - (* unary, fixnum *)
+    unfold s_out. cbn [denotes denote m_op m_sub neg1 s_op fst snd]. rewrite canon_one. f_equal. f_equal. f_equal.
+    destruct (Z.eqb_spec a (- two63)) as [->|Hne]; [reflexivity|].
+    apply in64_spec in Hd. assert (I : in64 (- a) = true) by (apply in64_spec; unfold two63 in *; lia).
+    rewrite (wrap64_id _ I), (canon_int_fix _ I). reflexivity.
+  - apply andb_true_iff in Hd as [Ha Hf]. apply Many; [discriminate|exact Ha|exact Hf].
+  - unfold s_out. cbn [denotes denote m_op m_sub neg1 s_op fst snd]. rewrite canon_one. f_equal. f_equal. f_equal.
+    unfold canon_int. apply negb_true_iff in Hd. rewrite Hd. reflexivity.
+  - apply Many; [discriminate|reflexivity|exact Hd].
 Qed.
 
 Lemma inc_exact args : in_domain OInc args = true -> s_out OInc args = Some (m_op OInc args).
 Proof.
-  cbn [in_domain]. rewrite andb_true_iff. intros [Hf Hp]. fix_operands args Hf zs Hin.
-  destruct zs as [|a [|? ?]]; try discriminate. cbn [map s_out denotes denote m_op m_inc s_op fst snd].
-  rewrite (wrap64_id _ Hp). rewrite (canon_one (a + 1)), (canon_int_fix _ Hp). reflexivity.
+  cbn [in_domain]. destruct args as [|[a|a| |] [|? ?]]; try discriminate; intros Hd;
+    unfold s_out; cbn [denotes denote m_op m_inc s_op fst snd]; rewrite canon_one; f_equal; f_equal; f_equal.
+  - change (1 =? 1) with true. cbv iota.
+    destruct (Z.eqb_spec a (two63 - 1)) as [->|Hne]; [reflexivity|].
+    apply in64_spec in Hd. assert (I : in64 (a + 1) = true) by (apply in64_spec; unfold two63 in *; lia).
+    rewrite (wrap64_id _ I), (canon_int_fix _ I). reflexivity.
+  - unfold canon_int. apply negb_true_iff in Hd. rewrite Hd. reflexivity.
 Qed.
 Lemma dec_exact args : in_domain ODec args = true -> s_out ODec args = Some (m_op ODec args).
 Proof.
-  cbn [in_domain]. rewrite andb_true_iff. intros [Hf Hp]. fix_operands args Hf zs Hin.
-  destruct zs as [|a [|? ?]]; try discriminate. cbn [map s_out denotes denote m_op m_inc s_op fst snd].
-  replace (a + -1) with (a - 1) by lia.
-  rewrite (wrap64_id _ Hp). rewrite (canon_one (a - 1)), (canon_int_fix _ Hp). reflexivity.
+  cbn [in_domain]. destruct args as [|[a|a| |] [|? ?]]; try discriminate; intros Hd;
+    unfold s_out; cbn [denotes denote m_op m_inc s_op fst snd]; rewrite canon_one; f_equal; f_equal; f_equal;
+    replace (a + -1) with (a - 1) by lia.
+  - change (-1 =? 1) with false. cbv iota.
+    destruct (Z.eqb_spec a (- two63)) as [->|Hne]; [reflexivity|].
+    apply in64_spec in Hd. assert (I : in64 (a - 1) = true) by (apply in64_spec; unfold two63 in *; lia).
+    rewrite (wrap64_id _ I), (canon_int_fix _ I). reflexivity.
+  - unfold canon_int. apply negb_true_iff in Hd. rewrite Hd. reflexivity.
 Qed.
 Lemma abs_exact args : in_domain OAbs args = true -> s_out OAbs args = Some (m_op OAbs args).
 Proof.
-  cbn [in_domain]. rewrite andb_true_iff. intros [Hf Hp]. fix_operands args Hf zs Hin.
-  destruct zs as [|a [|? ?]]; try discriminate. cbn [map s_out denotes denote m_op m_abs s_op fst snd].
-  rewrite canon_one, (canon_int_fix _ Hp). f_equal. f_equal. f_equal. f_equal.
-  destruct (Z.ltb_spec a 0).
-  - replace (Z.abs a) with (- a) in * by lia. symmetry. apply wrap64_id, Hp.
-  - lia.
+  cbn [in_domain]. destruct args as [|[a|a| |] [|? ?]]; try discriminate; intros Hd;
+    unfold s_out; cbn [denotes denote m_op m_abs s_op fst snd]; rewrite canon_one; f_equal; f_equal; f_equal.
+  - destruct (Z.eqb_spec a (- two63)) as [->|Hne]; [reflexivity|].
+    apply in64_spec in Hd. assert (I : in64 (Z.abs a) = true) by (apply in64_spec; unfold two63 in *; lia).
+    rewrite (canon_int_fix _ I). f_equal.
+    destruct (Z.ltb_spec a 0).
+    + replace (Z.abs a) with (- a) in * by lia. symmetry. apply wrap64_id, I.
+    + lia.
+  - unfold canon_int. apply negb_true_iff in Hd. rewrite Hd. reflexivity.
 Qed.
 
 (* ---------- mod rem ---------- *)
@@ -144,7 +292,7 @@ Proof.
   cbn [in_domain]. rewrite andb_true_iff. intros [Hf Hp]. fix_operands args Hf zs Hin.
   destruct zs as [|n [|d [|? ?]]]; try discriminate. cbn [map s_out denotes denote m_op m_rem s_op norm_kind as_int].
   cbn in Hin. apply andb_true_iff in Hin as [Hn Hd']. apply andb_true_iff in Hd' as [Hd _].
-  apply negb_true_iff in Hp. rewrite Hp. unfold grem. f_equal. f_equal. f_equal.
+  clear Hp. destruct (d =? 0) eqn:Hp; [reflexivity|]. unfold grem. f_equal. f_equal. f_equal.
   apply canon_int_fix. apply in64_spec in Hn, Hd. apply in64_spec. unfold two63 in *. apply Z.eqb_neq in Hp. clear Hf Heqzs. lia.
 Qed.
 Lemma mod_exact args : in_domain OMod args = true -> s_out OMod args = Some (m_op OMod args).
@@ -179,15 +327,36 @@ Proof.
   - rewrite R. apply in64_spec. unfold two63. lia.
 Qed.
 
+Lemma quot_in64 n d : - two63 <= n < two63 -> - two63 <= d < two63 -> d <> 0 ->
+  (n =? - two63) && (d =? -1) = false -> in64 (Z.quot n d) = true.
+Proof.
+  intros Hn Hd Hnz Hm. apply in64_spec.
+  pose proof (Z.quot_abs n d Hnz) as QA.
+  pose proof (Z.mul_quot_le (Z.abs n) (Z.abs d) (Z.abs_nonneg _) ltac:(lia)) as ML. rewrite QA in ML.
+  destruct (Z.eq_dec d (-1)) as [->|Hd1].
+  - change (-1) with (- (1)). rewrite Z.quot_opp_r, Z.quot_1_r by lia.
+    rewrite andb_false_iff in Hm. destruct Hm as [Hm|Hm]; [apply Z.eqb_neq in Hm; lia|discriminate].
+  - destruct (Z.eq_dec d 1) as [->|Hd2]; [rewrite Z.quot_1_r; exact Hn|].
+    clear Hm QA. remember (Z.quot n d) as q. clear Heqq.
+    assert (2 * Z.abs q <= Z.abs n).
+    { apply Z.le_trans with (Z.abs d * Z.abs q); [apply Z.mul_le_mono_nonneg_r; lia|apply ML]. }
+    unfold two63 in *. lia.
+Qed.
+
 Ltac round_setup args Hf Hp zs Hin n d Hn Hd Hnz Hq Hm :=
   cbn [in_domain] in *; apply andb_true_iff in Hp as [Hf Hp]; fix_operands args Hf zs Hin;
   destruct zs as [|n [|d [|? ?]]]; try discriminate;
+  destruct (d =? 0) eqn:Hnz; [apply Z.eqb_eq in Hnz; subst d; reflexivity|];
+  cbn [orb] in Hp;
+  destruct ((n =? - two63) && (d =? -1)) eqn:Hq;
+  [apply andb_true_iff in Hq as [Hq Hm]; apply Z.eqb_eq in Hq, Hm; subst n d; vm_compute; reflexivity|];
+  cbn [orb] in Hp; pose proof Hp as Hm;
   cbn in Hin; apply andb_true_iff in Hin as [Hn Hin]; apply andb_true_iff in Hin as [Hd _];
-  apply andb_true_iff in Hp as [Hp Hm]; apply andb_true_iff in Hp as [Hnz Hq];
-  apply negb_true_iff in Hnz;
   cbn [map s_out denotes denote m_op m_round s_op norm_kind as_int];
-  rewrite Hnz; unfold round_fix; rewrite Hnz; unfold gquot; rewrite (wrap64_id _ Hq);
+  rewrite Hnz; unfold round_fix; rewrite Hnz, Hq;
   apply in64_spec in Hn, Hd; apply Z.eqb_neq in Hnz;
+  apply (quot_in64 n d Hn Hd Hnz) in Hq;
+  unfold gquot; rewrite (wrap64_id _ Hq);
   clear Hf.
 
 Lemma truncate_exact args : in_domain (ORound Truncate) args = true ->
@@ -367,24 +536,16 @@ Definition refuted (o : opn) (args : list val) : bool :=
   | None => false
   end.
 Definition refutation_witnesses : list (opn * list val) :=
-  [ (OAdd, [VFix 4611686018427387904; VFix 4611686018427387904]);      (* fixnum + wraps *)
-    (OMul, [VFix 4294967296; VFix 4294967296]);                        (* fixnum * wraps *)
-    (OInc, [VFix 9223372036854775807]);                                (* 1+ wraps *)
-    (OAbs, [VFix (-9223372036854775808)]);                             (* abs of most-negative-fixnum *)
-    (ORound Floor, [VFix (-7); VFix (-2)]);                            (* floor, negative divisor *)
+  [ (ORound Floor, [VFix (-7); VFix (-2)]);                            (* floor, negative divisor *)
     (ORound Floor, [VFix 7; VFix (-2)]);
-    (OSub, [VBig B; VFix 1]);                                          (* result written into operand 0 *)
-    (OSub, [VBig B]);                                                  (* negation in place *)
     (OSub, [VBig B; VBig (B - 5)]);                                    (* small result stays a bignum *)
-    (ODiv, [VRat 1 2; VFix 2]);                                        (* ratio operand overwritten *)
+    (OAdd, [VFix 9223372036854775807; VFix 1; VFix (-5)]);             (* a sum that left int64 and came back stays a bignum *)
+    (ORound Round, [VFix (-9223372036854775808); VFix 3]);             (* round of most-negative-fixnum: bignum objects *)
+    (ODiv, [VFix (-9223372036854775808); VFix (-1); VFix 2]);          (* 2^63 / 2 stays a bignum *)
     (ODiv, [VRat 1 2; VRat 1 2]);                                      (* integer-valued ratio not demoted *)
-    (OInc, [VRat 1 2]);                                                (* 1+ writes into its ratio operand *)
-    (ORound Round, [VBig (- B); VFix 3]);                              (* round takes |.| of its operand in place *)
+    (ODiv, [VFix (-1)]);                                               (* the reciprocal of -1 is the ratio -1/1 *)
     (OAdd, [VBig B; VRat 1 2]);                                        (* bignum + ratio goes through floats *)
-    (OGcd, [VBig B; VFix 10]);                                         (* gcd rejects bignums *)
-    (ORem, [VFix 5; VFix 0]);                                          (* rem by zero: Go runtime fault *)
     (OMod, [VFix 5; VFix 0]);                                          (* arithmetic-error, not division-by-zero *)
-    (ORound Truncate, [VFix (-9223372036854775808); VFix (-1)]);       (* quotient wraps *)
     (OCmp CEq, [VBig 590295810358705651712; VRat 1180591620717411303425 2]);    (* 2^69 = 2^69 + 1/2 through float64 *)
     (OBit BAnd, [VBig B; VFix 1]) ].                                   (* small result of the bignum loop stays a bignum *)
 Lemma outside_guard_refuted :
